@@ -35,6 +35,35 @@ mod ex_v1;
 
 // ---- library types behind pass-through contracts -----------------------------------------
 
+/// the capped token again, built from the library functions, with `set_cap` as an entry point: the library
+/// allows the cap to be set again later, also BELOW the current supply (no further mint until burns bring the
+/// supply under it). Otherwise the example: `mint = check_cap; Base::mint`, no burn.
+mod cap_lib {
+    use super::*;
+    use stellar_tokens::fungible::capped::{check_cap, set_cap};
+    #[contract]
+    pub struct CapLib;
+
+    #[contractimpl]
+    impl CapLib {
+        pub fn __constructor(e: &Env, cap: i128) {
+            set_cap(e, cap);
+        }
+        pub fn mint(e: &Env, to: Address, amount: i128) {
+            check_cap(e, amount);
+            Base::mint(e, &to, amount);
+        }
+        pub fn set_cap(e: &Env, cap: i128) {
+            set_cap(e, cap)
+        }
+    }
+
+    #[contractimpl(contracttrait)]
+    impl FungibleToken for CapLib {
+        type ContractType = Base;
+    }
+}
+
 mod alib {
     use super::*;
     #[contract]
@@ -417,7 +446,13 @@ impl Sim {
             Kind::BLib => e.register(blib::BTok, ()),
             Kind::AEx => e.register(ex_allow::ExampleContract, (name, sym, o, m, p.init)),
             Kind::BEx => e.register(ex_block::ExampleContract, (name, sym, o, m, p.init)),
-            Kind::Cap => e.register(ex_cap::ExampleContract, (p.cap,)),
+            Kind::Cap => {
+                if p.ver == 1 {
+                    e.register(cap_lib::CapLib, (p.cap,))
+                } else {
+                    e.register(ex_cap::ExampleContract, (p.cap,))
+                }
+            }
             Kind::Mig => {
                 if p.ver == 1 {
                     e.register(ex_v1::ExampleContract, (o,))
@@ -643,6 +678,12 @@ impl Sim {
             self.ver = 2;
         }
         self.observe(t, r, name == "increment" || name.starts_with("inc_"));
+    }
+    /// `set_cap(c)` on the library flavour of the capped token
+    fn setcap(&mut self, t: &mut Trace, c: i128) {
+        t.op(&format!("gate setcap a=- d=- c={} auth=-", c));
+        let r = call(&self.e, &self.c, "set_cap", args(&self.e, [v(&self.e, c)]), &[]);
+        self.observe(t, r, false);
     }
     fn advance(&mut self, t: &mut Trace, n: u32) {
         self.now += n;
@@ -977,6 +1018,36 @@ fn directed(t: &mut Trace) {
     s.exec(t, "burn_from", &[3, 2], 30, 0, &[3]);
     });
 
+    // capped, the cap set again: raised, lowered to the supply, lowered BELOW the supply (every mint refused,
+    // also of 0? no: 0 keeps the supply where it is ... the comparison decides), negative (refused)
+    guarded(t, "directed cap lowered", |t| {
+        let p = pp(0, 0, 0, 1000, 1);
+        t.seq(&Sim::label(Kind::Cap, p, 1, 100, "directed cap set again"));
+        let mut s = Sim::new(Kind::Cap, p, 1, 100);
+        s.exec(t, "mint", &[1], 600, 0, &[]);
+        s.setcap(t, -1);
+        s.setcap(t, 2000);
+        s.exec(t, "mint", &[2], 900, 0, &[]); // 1500 <= 2000
+        s.setcap(t, 1500); // exactly the supply
+        s.exec(t, "mint", &[2], 1, 0, &[]);
+        s.exec(t, "mint", &[2], 0, 0, &[]);
+        s.setcap(t, 700); // below the supply
+        s.exec(t, "mint", &[3], 1, 0, &[]);
+        s.exec(t, "mint", &[3], 5, 0, &[]);
+        s.exec(t, "mint", &[3], 0, 0, &[]);
+        s.exec(t, "mint", &[3], i128::MAX - 1500, 0, &[]);
+        s.exec(t, "mint", &[3], i128::MAX, 0, &[]);
+        s.exec(t, "transfer", &[1, 3], 100, 0, &[1]);
+        s.setcap(t, 0);
+        s.exec(t, "mint", &[3], 1, 0, &[]);
+        s.advance(t, 1000);
+        s.exec(t, "mint", &[3], 1, 0, &[]);
+        s.setcap(t, i128::MAX);
+        s.exec(t, "mint", &[3], 1, 0, &[]);
+        s.exec(t, "mint", &[3], i128::MAX - 1501, 0, &[]);
+        s.exec(t, "mint", &[3], 1, 0, &[]);
+    });
+
     // capped: cap - supply +/- 1, i128 overflow
     for cap in [1000i128, 0, i128::MAX, i128::MAX - 1] {
         guarded(t, "directed cap", |t| {
@@ -1224,7 +1295,7 @@ fn rand_seq(rng: &mut Rng, t: &mut Trace, kind: Kind, k: u64, seed: u64, len: u6
         _ => rng.range(1, 5000) as i128,
     };
     let init = if rng.chance(15) { 0 } else { rng.range(1, 100_000) as i128 };
-    let ver = if kind == Kind::Mig && rng.chance(30) { 1 } else { 0 };
+    let ver = if (kind == Kind::Mig && rng.chance(30)) || (kind == Kind::Cap && rng.chance(50)) { 1 } else { 0 };
     // a fifth of the sequences live in the long-horizon Env and contain day / month / 100-day gaps
     let long = rng.chance(20);
     let mut p = pp(owner, mgr, init, cap, ver);
@@ -1302,7 +1373,25 @@ fn rand_seq(rng: &mut Rng, t: &mut Trace, kind: Kind, k: u64, seed: u64, len: u6
                     rand_fungible(rng, &mut s, t, kinds, p);
                 }
             }
-            Kind::Cap => rand_fungible(rng, &mut s, t, &CAP4, p),
+            Kind::Cap => {
+                if p.ver == 1 && rng.chance(12) {
+                    // the cap set again: around the current supply, far above, zero, negative
+                    let sup = s.supply();
+                    let c = match rng.below(8) {
+                        0 => sup,
+                        1 => sup.saturating_sub(1),
+                        2 => sup.saturating_add(1),
+                        3 => sup / 2,
+                        4 => sup.saturating_mul(2).saturating_add(10),
+                        5 => 0,
+                        6 => -(rng.range(1, 5) as i128),
+                        _ => i128::MAX,
+                    };
+                    s.setcap(t, c);
+                } else {
+                    rand_fungible(rng, &mut s, t, &CAP4, p)
+                }
+            }
             Kind::Mig => {
                 let d = [rng.below(100) as u32, rng.below(100) as u32];
                 let operator = if rng.chance(78) { owner } else { pa(rng) };
